@@ -6,15 +6,6 @@ import (
 	"golang.org/x/tools/go/ssa"
 )
 
-func registerTime(reg func(string, intrinsic)) {
-	// time is handled lazily: harnesses avoid time.Now; production code that
-	// calls it gets an arbitrary non-decreasing unix-nanosecond clock.
-	reg("time.Now", func(in *Interp, fn *ssa.Function, a []Value) Value {
-		in.unsupported("time.Now (use a harness clock)")
-		return nil
-	})
-}
-
 func registerMisc(reg func(string, intrinsic)) {
 	sortSlice := func(in *Interp, fn *ssa.Function, a []Value) Value {
 		iv, ok := a[0].(IfaceV)
